@@ -21,8 +21,13 @@ inline Op gen_source(Tape & t, int id) {
 // shape of the definition parameters
 enum DefShape { DEF_MINIMAL = 0, DEF_SMALL = 1, DEF_DEFAULTS = 2, DEF_ODD = 3 };
 
+// Properties that judge samples (not absolute statistics) switch this on: one integer signal in six then carries a fixed-point
+// exponent in its data type (JLS_DATATYPE_DEF(base, size, q), q = 1..40).  The stored bits are the same; every place of the
+// library that dispatches on the data type must ignore q (found F-C15-5: omitted constant blocks of u8/u4/u1 with q != 0).
+inline bool & gen_allow_q() { static bool v = false; return v; }
 inline Op gen_signal(Tape & t, int id, int src, const DType & dt, int shape) {
     Op o; o.op = "signal"; o.id = id; o.src = src; o.stype = 0; o.dtype = dt.name;
+    if (gen_allow_q() && dt.kind != 'f' && t.chance(1, 6)) o.q = (int) t.range(1, 40);
     o.rate = (uint32_t) t.pick(std::vector<uint32_t>{1000, 1, 48000, 1000000, 2000000000u});
     switch (shape) {
         case DEF_MINIMAL: o.spd = 10; o.sdf = 10; o.eps = 10; o.sumdf = 10; break;
